@@ -32,9 +32,18 @@ between the SETUP token and it (handshake, damaged packet: the statement does no
 pending); SETUP data with a PID other than DATA0 (a host never sends it); responses to PING (the control endpoint
 may ACK them).  SETUP tokens to endpoints other than 0 are not generated.  The exact ACK cycle is C05's subject.
 
-Known-finding classifier: a miss / spurious report is attributed to the open finding only if a data-PID packet with
-failing CRC ended so recently that fewer than ten bytes (counted from its first payload byte) were on the wire
-before the judged data packet started; every other miss / spurious report keeps its generic mechanism name.
+Reference state after a miss: when an expected report does not come, the reference no longer knows whether the decoder
+still waits for data; everything up to the next token addressed to us is then unjudged (no cascades of one failure).
+
+Known-finding classifier (names the mechanism, never decides the verdict; history patterns only):
+  * `..._after_damaged_data_packet`: a data-PID packet with failing CRC ended so recently that at most ten bytes (counted
+    from its first payload byte) were on the wire before the judged data packet started (stuck deserializer, finding A);
+  * `setup_missed_after_unfinished_setup`: the SETUP token of the missed transaction arrived while an earlier SETUP
+    token was still open (no report observed, no CRC-valid data packet of <= 8 bytes since) (finding B);
+  * `setup_missed_after_damaged_setup_data`: both patterns at once;
+  * `setup_reported_after_intervening_{foreign,sof}_token`: report although a well-formed token for another address /
+    a SOF came between our SETUP token and the data packet (finding C).
+Every other miss / spurious report / ACK anomaly keeps a generic mechanism name and fails the run.
 """
 from rv.sim import Bench
 from rv.usb2host import UTMIHost, init_device_signals
@@ -52,7 +61,8 @@ REQUIRED_BINS = (["mode_sa_hs", "mode_sa_fs", "mode_dev_fs12", "mode_dev_fs60", 
                   "setup_wrong_len_short", "setup_wrong_len_long", "setup_len_7", "setup_len_9", "setup_len_0", "setup_bad_crc",
                   "setup_truncated", "setup_tail", "setup_data_bad_pid", "data8_without_setup_token", "own_token_between", "foreign_token_between",
                   "sof_between", "junk_between", "tight_gap_before_setup", "nonzero_address", "foreign_addr_one_bit",
-                  "payload_single_bit", "rx_gaps", "tx_backpressure"]
+                  "payload_single_bit", "rx_gaps", "tx_backpressure", "setup_token_repeated", "retry_after_rejected_setup_data",
+                  "judged_data_after_foreign_token", "judged_data_after_sof_token"]
                  + ["pre_" + k for k in PRE_KINDS])
 REQUIRED_EVENTS = ["cycles_monitored", "host_packets", "received_strobes", "acks_seen", "judged_expect_report",
                    "judged_expect_silence", "fields_compared", "ack_timing_checked"]
@@ -544,10 +554,12 @@ def judge(res, mode, own, pkts, recs, acks, last_cycle):
             if my_recs or (kind == "data" and len(info["payload"]) <= 8 and not poisoned):
                 cls_open = False
         else:
-            if my_recs:
-                out.append(("setup_reported_without_data_packet", ctx))
             is_ping_to_us = kind == "token" and info["pid"] == U.PING and info["addr"] == own
-            if my_acks and not is_ping_to_us:
+            if my_recs:
+                # open finding A: the stuck deserializer may complete its concatenation on any packet
+                out.append(("setup_reported_after_damaged_data_packet" if _poisoned(pkts, infos, idx) else "setup_reported_without_data_packet", ctx))
+                cls_open = False
+            elif my_acks and not is_ping_to_us:
                 out.append(("ack_without_data_packet", ctx + " acks=%s" % my_acks))
             if kind == "token" and info["addr"] == own:
                 if info["pid"] == U.SETUP and info["endp"] == 0:
